@@ -47,12 +47,13 @@ struct Session
         return *it->second.begin() > g_now_ms.load();
     }
 
-    Obs observe(bool is_tick)
+    Obs observe(bool is_tick, bool is_obs)
     {
         Obs o;
-        // ut_map / ut_set: a probe is a lookup and purges like any call; on call lines it finds
-        // nothing left to purge, on an "obs" line it is the call.  Read size() after the probes.
-        const bool probe_first = caps.ut && !is_tick;
+        // ut_map / ut_set: a probe is a lookup and purges like any call.  After a call there is
+        // nothing left to purge (same instant), so size() is read first, immediately after the
+        // call; on an "obs" line the probes are the call and size() is read after them.
+        const bool probe_first = caps.ut && is_obs;
         if (!probe_first)
         {
             o.size  = c->size();
@@ -131,7 +132,7 @@ void emit(
     const std::vector<std::pair<int, int>>&  rl,
     bool                                     is_tick = false)
 {
-    Obs               o = S.observe(is_tick);
+    Obs               o = S.observe(is_tick, std::strcmp(op, "obs") == 0);
     std::ostringstream s;
     s << "{\"e\":\"op\",\"op\":\"" << op << "\",\"k\":" << k << ",\"v\":" << v << ",\"a\":" << a << ",\"d\":" << d
       << ",\"p\":" << p << ",\"var\":" << var << ",\"kv\":" << jl(kv) << ",\"now\":" << g_now_ms.load()
